@@ -15,6 +15,18 @@ def pbt(name, driver, quick, thorough, mode="run", variant="asan", **kw):
     return d
 
 
+CGF_FLAGS = ("-DVF_CGF", "-Dmain=vf_driver_main")
+
+
+def cgf(name, driver, quick, thorough, **kw):
+    """coverage-guided stage: the rapidcheck driver's own translation unit built as a libFuzzer target (DESIGN.md sec. 3.7)"""
+    src = "props/%s.cpp" % driver
+    d = {"kind": "cgf", "name": name, "driver": driver, "src": src, "quick": quick, "thorough": thorough,
+         "builds": [("cgf_" + driver[4:], "fuzz", src, CGF_FLAGS, ("-lrapidcheck",)), (driver, "asan", src, (), ("-lrapidcheck",))]}
+    d.update(kw)
+    return d
+
+
 def fuzz(name, driver, quick, thorough, **kw):
     d = {"kind": "fuzz", "name": name, "driver": driver, "src": "fuzz/%s.cpp" % driver, "quick": quick, "thorough": thorough}
     d.update(kw)
@@ -136,6 +148,7 @@ PROPS["C05"] = {
     "stages": [
         pbt("interleavings", "pbt_C05", quick={"cases": 4500, "size": 100, "shards": 8},
             thorough={"cases": 20000, "size": 200, "shards": 16}),
+        cgf("coverage_guided", "pbt_C05", quick={"runs": 6000, "workers": 8}, thorough={"runs": 400000, "workers": 16}),
     ],
 }
 
